@@ -358,7 +358,7 @@ def check_object(p, label, sd):
         return
     p.count("transitions")
     diffs = compare(o, o1)
-    for path, x, y in diffs[:3]:
+    for path, x, y in diffs[:1]:
         p.violation("roundtrip/" + path, "%s: after save+load %s is %s, was %s" % (label, path, y, x), w)
     try:
         s1 = save_text(o1)
@@ -366,9 +366,8 @@ def check_object(p, label, sd):
     except Exception as ex:  # noqa
         p.violation(exc_key("resave/" + label.split("/")[0], ex), "%s: saving the reloaded object raised %r" % (label, ex), w)
         return
-    if s1 != s0:
-        p.violation("fixpoint/" + label.split("/")[0], "%s: second save differs from the first (first difference at char %d)"
-                    % (label, next(i for i, (c, e) in enumerate(zip(s0 + "\0", s1 + "\1")) if c != e)), w)
+    if s1 != s0 and not diffs:  # (a field that did not survive is already reported above; its echo in the text is the same defect)
+        p.violation("fixpoint/" + json_diff_path(s0, s1), "%s: second save differs from the first at %s" % (label, json_diff_path(s0, s1)), w)
     # the dict-level entry points used by Archive
     from ppci.binutils.objectfile import serialize, deserialize
     try:
@@ -376,8 +375,41 @@ def check_object(p, label, sd):
     except Exception as ex:  # noqa
         p.violation(exc_key("serialize/" + label.split("/")[0], ex), "%s: deserialize(serialize(obj)) raised %r" % (label, ex), w)
         return
-    for path, x, y in compare(o, o2)[:3]:
+    for path, x, y in ([] if diffs else compare(o, o2)[:1]):
         p.violation("roundtrip/" + path, "%s: after serialize+deserialize %s is %s, was %s" % (label, path, y, x), w)
+
+
+def json_diff_path(t0, t1):
+    """Path of the first difference between two JSON texts, list indices dropped (a locus, not a position)."""
+    import json
+    try:
+        a, b = json.loads(t0), json.loads(t1)
+    except ValueError:
+        return "not-json"
+
+    def walk(x, y, path):
+        if type(x) is not type(y):
+            return path
+        if isinstance(x, dict):
+            for k in sorted(set(x) | set(y)):
+                if k not in x or k not in y:
+                    return path + [k]
+                r = walk(x[k], y[k], path + [k])
+                if r is not None:
+                    return r
+            return None
+        if isinstance(x, list):
+            if len(x) != len(y):
+                return path + ["length"]
+            for u, v in zip(x, y):
+                r = walk(u, v, path)
+                if r is not None:
+                    return r
+            return None
+        return None if x == y else path
+
+    r = walk(a, b, [])
+    return ".".join(r) if r else "formatting"
 
 
 def _link(objs, ldesc, debug, libs=None):
@@ -471,14 +503,22 @@ def check_archive(p, label, sds):
     if len(got) != len(objs):
         p.violation("archive/member-count", "%s: %d members saved, %d loaded" % (label, len(objs), len(got)), w)
         return
-    for i, (a, b) in enumerate(zip(objs, got)):
-        for path, x, y in compare(a, b)[:2]:
+    bad = [(i, compare(a, b)) for i, (a, b) in enumerate(zip(objs, got))]
+    bad = [(i, d) for i, d in bad if d]
+    if bad:
+        ta, tb = [save_text(x) for x in objs], [save_text(x) for x in got]
+        if ta != tb and sorted(ta) == sorted(tb):  # the same members (by their saved text), permuted
+            p.violation("archive/member-order", "%s: members come back in a different order" % label, w)
+        else:
+            i, d = bad[0]
+            path, x, y = d[0]
             p.violation("roundtrip/" + path, "archive %s: member %d: %s is %s, was %s" % (label, i, path, y, x), w)
+        return
     f2 = io.StringIO()
     Archive(got).save(f2)
     p.count("transitions")
     if f2.getvalue() != s0:
-        p.violation("archive/fixpoint", "%s: second save of the archive differs from the first" % label, w)
+        p.violation("archive/fixpoint/" + json_diff_path(s0, f2.getvalue()), "%s: second save of the archive differs from the first" % label, w)
 
 
 def check_library(p, label, main_sd, lib_sds):
@@ -667,10 +707,14 @@ def do_item(p, item):
         check_link(p, item[1], item[2], item[3], item[4])
 
 
+_ITEMS = []  # built in the parent before the workers are forked; shards carry indices only
+
+
 def worker(p, shard):
     from vf.core import cpu_limit, CpuTimeout
     _quiet()
-    for item in shard:
+    for idx in shard:
+        item = _ITEMS[idx]
         try:
             with cpu_limit(60):
                 do_item(p, item)
@@ -719,7 +763,10 @@ def run(ctx):
             make_state(sd)
         except Exception:  # noqa
             pass
-    ctx.pmap(worker, items)
+    import gc
+    _ITEMS[:] = items
+    gc.freeze()  # keep the forked workers from touching (and copying) the parent's item tables
+    ctx.pmap(worker, list(range(len(items))))
     if ctx.counters.get("unclassified_state_not_constructible") and not ctx.violations:
         from vf.core import HarnessError
         raise HarnessError("states could not be constructed: %r" % sorted(ctx.sets.get("unconstructible", ())))
